@@ -21,7 +21,8 @@ CHECKS = {
              'on the real sync / async dispatchers under 4 batch-size limits and 3 extra flavours (plain functions on the async '
              'dispatcher, inert middleware + handler tables); every return value is judged by a strict JSON decoder and a structural '
              'checker that share no code with pjrpc. The repository test-suite additionally runs under icontract / wrapper contracts. '
-             'Extra dispatcher flavours: plain functions on the async dispatcher, inert hooks with unconventional parameter names, pjrpc loggers enabled for DEBUG.',
+             'Extra dispatcher flavours: plain functions on the async dispatcher, inert hooks with unconventional parameter names, pjrpc loggers enabled for DEBUG. '
+             'Also (round 9): unregistered names in the rpc. namespace / padded with white space, a bound on a type pydantic converts before checking (timedelta), a view method with a parameter named context.',
         note='trusted: vmon/strictjson.py, vmon/models/wire.py; probe methods return JSON-encodable values; lenient-parser tokens judged for totality only'),
     'C02': dict(
         category='exploration', design_ref='DESIGN.md §3 C02, §8',
@@ -99,7 +100,8 @@ CHECKS = {
              'x 4 exception sets and 4 strategy sources; the interleaved send / sleep event sequence (arguments to 1e-9, positions, which '
              'sleep function) and the object reaching the caller are compared with the model. '
              'Also: delays that come back below the cap, exceptions that wrap a listed one, per-request strategies that list nothing, error codes from the reserved server-error range. '
-             'Round 8: user-defined iterator backoffs; the requests / httpx backends against a loop-back peer that drops connections.',
+             'Round 8: user-defined iterator backoffs; the requests / httpx backends against a loop-back peer that drops connections. '
+             'Also: attempts that end in an exception the client raises itself while processing the reply (IdentityError for a stale answer), listed directly / through a base class / not listed.',
         note='trusted: vmon/models/retry.py; the names time/asyncio inside pjrpc.client.retry are rebound to recording shims'),
     'C10': dict(
         category='exploration', design_ref='DESIGN.md §3 C10, §2.7, §8',
@@ -110,7 +112,8 @@ CHECKS = {
              'one per step; all schedules of every generated shape are executed and judged (request-order array, own ids / results, '
              'run-once, nothing left in flight, sequential mode never overlapping and in request order). '
              'Element profiles include plain methods raising TypeError, class-based view methods keeping state on self, the codes -32600 / -32700, per-code handlers that sign the error, and a context variable set by the middleware and read after the method\'s suspension points. '
-             'Round 8: one-element batches; dispatchers handed out by the aiohttp integration.',
+             'Round 8: one-element batches; dispatchers handed out by the aiohttp integration. '
+             'Also: elements calling unregistered methods; an integration application whose own dispatcher is explicitly configured the other way round than the endpoint dispatcher under test.',
         note='trusted: vmon/sched.py; exhaustive over user-code suspension points of the generated shapes only'),
     'C11': dict(
         category='exploration', design_ref='DESIGN.md §3 C11, §8',
@@ -121,7 +124,8 @@ CHECKS = {
              'sessions with tracers, C19 scripted attempt outcomes incl. BaseException / CancelledError, C07 call programs x notations and '
              'C08 scripted response documents run on the sync and the async client. Documents, code tuples, execution logs, event '
              'sequences, wire documents, outcomes, tracer events and sleep arguments are compared pairwise; no model is involved. '
-             'Round 8: the sync and async httpx backends against one scripted HTTP peer (media types x answers).',
+             'Round 8: the sync and async httpx backends against one scripted HTTP peer (media types x answers). '
+             'Also: an application encoder whose default() writes the request objects itself; answers whose bytes are not valid in the declared / default charset on the httpx backend pair.',
         note='trusted: only the comparison code; a defect present in both twins is invisible here (other checks cover that)'),
     'C12': dict(
         category='exploration', design_ref='DESIGN.md §3 C12, §8',
@@ -132,7 +136,8 @@ CHECKS = {
              '__await__ objects, dispatchers obtained from flask / aiohttp add_endpoint() next to decoy hooks} run on the real '
              'dispatchers; per-element enter/exit/handler event sequences (with the objects handed over), executions and the response '
              'sent are compared with the model. '
-             'Round 8: dispatchers configured with their own response classes, plain dict contexts.',
+             'Round 8: dispatchers configured with their own response classes, plain dict contexts. '
+             'Also: a middleware refusing calls with an error response carrying the request id and a -32600 / -32700 code; handlers translating failures into those codes.',
         note='trusted: the model in vmon/monitors/c12.py + vmon/models/server.py; probes do not raise'),
     'C13': dict(
         category='exploration', design_ref='DESIGN.md §3 C13, §8',
@@ -144,7 +149,8 @@ CHECKS = {
              '(4) 2..16 threads on one dispatcher with GIL yields injected at statement starts of dispatcher.py / validators / pjrpc/common, incl. cold '
              'dispatchers with response-changing middlewares, every response compared with the model / a sequential twin; (5) hooks that raise in the leak workload; (6) a fingerprint of '
              'interpreter-wide settings (int digit limit, recursion limit, logging levels, json default codec ...) before, after and during dispatches. '
-             'Also: dispatches cancelled from outside while batch members are suspended, one AsyncDispatcher under several event loops, the same request text repeated before a probe that mutates its arguments, custom validator code failing before a probe.',
+             'Also: dispatches cancelled from outside while batch members are suspended, one AsyncDispatcher under several event loops, the same request text repeated before a probe that mutates its arguments, custom validator code failing before a probe. '
+             'Also: requests carrying extension members with per-request values (judged on sys.getallocatedblocks), application decoder / encoder classes with per-document state on the instance.',
         note='trusted: vmon/models/server.py; held on the interleavings observed (counted in the evidence), not on all'),
     'C14': dict(
         category='exploration', design_ref='DESIGN.md §3 C14, §8',
@@ -155,7 +161,8 @@ CHECKS = {
              'called with conforming, coercible and non-conforming values positionally and by name; executed-iff-conforming, -32602 with '
              'encodable data, unchanged / converted arguments and non-settable excluded parameters are judged against an evaluator '
              'written for exactly that alphabet. One function object is also registered without a context. '
-             'Also: per-item array constraints, methods compiled under postponed annotations in a real module, dispatchers handed out by an integration\'s add_endpoint().',
+             'Also: per-item array constraints, methods compiled under postponed annotations in a real module, dispatchers handed out by an integration\'s add_endpoint(). '
+             'Also: unhashable mutable defaults ([] / {}) under the pydantic validator.',
         note='trusted: frag_ok / schema_ok and the ANNOT table in vmon/monitors/c14.py (checked against pydantic 2.13 lax mode)'),
     'C15': dict(
         category='exploration', design_ref='DESIGN.md §3 C15, §8',
@@ -165,7 +172,8 @@ CHECKS = {
              'sampled, crafted three-level, same-prefix and repeated-source merges, re-registrations) on both dispatchers; every model '
              'name, every name one edit away and every private / dunder / non-callable member of views with instance, static, class '
              'and inherited members (also from mixins behind ViewMixin, and a derived view replacing its base) under every prefix in play, and explicitly registered underscore names, is requested and the reached target token compared with the model. '
-             'Names may be given as str-mixin enum members or str subclasses; a registered view whose constructor raises KeyError must not look unregistered; a derived view may turn an inherited attribute into a method.',
+             'Names may be given as str-mixin enum members or str subclasses; a registered view whose constructor raises KeyError must not look unregistered; a derived view may turn an inherited attribute into a method. '
+             'Also: names padded with white space; public view methods named like library vocabulary (context, method).',
         note='trusted: the name model inside vmon/monitors/c15.py; add_methods(Method) under a prefix is not judged'),
     'C16': dict(
         category='exploration', design_ref='DESIGN.md §3 C16, §8',
@@ -176,7 +184,8 @@ CHECKS = {
              'bystander specification built in between; exceptions, encodability, completeness, repeat-identity, fingerprints of metadata / '
              'user objects, "entry alone == entry together in any order (component names included)", "a reused specification object == a '
              'fresh one" are judged in process, meta-schema validity and dangling $refs by a jsonschema-4 worker. '
-             'Also: parameters named ref, hand-written content descriptors, docstrings with types but no text, abstract / unknown names in :raises:, undocumented overrides of documented base methods, names differing only in separators; meta-schema failures are located by their innermost sub-error.',
+             'Also: parameters named ref, hand-written content descriptors, docstrings with types but no text, abstract / unknown names in :raises:, undocumented overrides of documented base methods, names differing only in separators; meta-schema failures are located by their innermost sub-error. '
+             'Also: methods that are functools.partial objects over one function, pydantic model configuration handed through the extractor, tuples / a set among OpenAPI example values.',
         note='trusted: vendored meta-schemas (hash-pinned copies of tests/server/resources), jsonschema 4.26 of python3-vt; known findings D13d, D22, D23'),
     'C17': dict(
         category='exploration', design_ref='DESIGN.md §3 C17, §8',
@@ -187,7 +196,8 @@ CHECKS = {
              'compared with the signature, and params objects over all subsets of (documented + undocumented + context + excluded names) '
              'are dispatched on the real dispatcher to compare acceptance with the document\'s prediction; the same function is also '
              'registered without a context and both registrations are probed alternately. '
-             'Also OpenAPI 3.0.x documents, parameters named like schema keywords, *rest parameters, Optional annotations on required parameters, a bystander method whose name differs only in a separator.',
+             'Also OpenAPI 3.0.x documents, parameters named like schema keywords, *rest parameters, Optional annotations on required parameters, a bystander method whose name differs only in a separator. '
+             'Also: required parameters described through pydantic.Field(...) as python default; the extractor option json_schema_serialization_defaults_required.',
         note='trusted: the real dispatcher with the base validator as acceptance reference (itself judged by C04)'),
     'C18': dict(
         category='exploration', design_ref='DESIGN.md §3 C18, §8',
@@ -199,7 +209,8 @@ CHECKS = {
              'status-function argument, body document, content type, empty-200, 415-and-no-execution and escaping exceptions are judged '
              'against a twin dispatcher called directly, and the three replies to one request against each other. '
              'A reply that never comes is a verdict only if a control request to the same application is answered; endpoints behind a flask blueprint with its own url_prefix. '
-             'Round 8: structured-suffix media types; a pjrpc sub-Application mounted through add_subapp.',
+             'Round 8: structured-suffix media types; a pjrpc sub-Application mounted through add_subapp. '
+             'Also: status functions returning statuses without a registered reason phrase (299, 499, 520, 599); a hosting application that reads the body before the integration does.',
         note='trusted: the twin dispatcher (itself judged by C01-C03); loop-back sockets must be available for the aiohttp part'),
     'C19': dict(
         category='fault_enumeration', design_ref='DESIGN.md §3 C19, §8',
@@ -211,7 +222,8 @@ CHECKS = {
              'and released in every order; an automaton checks begin/completion pairing per attempt, configuration order, payload identity, '
              'trace-context identity and the exception reaching the caller. '
              'Also: StopIteration raised by the transport, batches built with strict=False, a last tracer that raises in a completion handler (judged for one begin / exactly one completion per tracer). '
-             'Round 8: LoggingTracer riding along, tracers given as deque / dict view, contexts that take no attributes.',
+             'Round 8: LoggingTracer riding along, tracers given as deque / dict view, contexts that take no attributes. '
+             'Also: distinct tracers that compare equal.',
         note='trusted: vmon/models/retry.py for which attempts happen; probe tracers do not raise'),
     'C20': dict(
         category='exploration', design_ref='DESIGN.md §3 C20, §8',
@@ -221,7 +233,8 @@ CHECKS = {
              'after every call the reply text, refusal, passthrough invocation and mocker.calls are compared with a rotating-list model. '
              'Histories of <= 3 operations over a reduced alphabet are enumerated, longer ones sampled. '
              'Also: batches of one element, parameter names of the mocker\'s own functions, negative replace indices, stop/start of one mocker object, the library\'s requests / httpx / aiohttp backends with non-normalised URLs. '
-             'Round 8: patches configured with id=, pass-through to the library backends\' real transport.',
+             'Round 8: patches configured with id=, pass-through to the library backends\' real transport. '
+             'Also: configured errors as seen through send / call / a batch element of the real client, for codes with and without an error class of their own.',
         note='trusted: the list model inside vmon/monitors/c20.py; notifications and invalid remove/replace are not generated'),
 }
 
